@@ -36,12 +36,12 @@ MC_PROPS = ['C17_Atomic', 'C03_Frame']
 
 def mc_router(pool, name=None):
     return {'kind': 'mc', 'name': name or ('router' + pool), 'module': 'MC_Router', 'subst': sub(pool),
-            'consts': {'Depth': 100, 'EmitAll': 'FALSE', 'Battery': '"last"', 'RoundTrip': 'FALSE', 'Link': 'FALSE'}, 'view': 'view',
+            'consts': {'Depth': 100, 'EmitAll': 'FALSE', 'Battery': '"last"', 'RoundTrip': 'FALSE', 'Link': 'FALSE', 'Dump': 'FALSE'}, 'view': 'view',
             'invariants': MC_INV, 'properties': MC_PROPS}
 
 
-def gen_bfs(pool, depth, name=None, extra='NoExtra', props=None, limit=None, sample=None, module='MC_Router', consts=None, rt=False, urls=None, th=None, link=False):
-    c = {'Depth': depth, 'EmitAll': 'TRUE', 'Battery': '"last"', 'RoundTrip': 'TRUE' if rt else 'FALSE', 'Link': 'TRUE' if link else 'FALSE'}
+def gen_bfs(pool, depth, name=None, extra='NoExtra', props=None, limit=None, sample=None, module='MC_Router', consts=None, rt=False, urls=None, th=None, link=False, dump=False):
+    c = {'Depth': depth, 'EmitAll': 'TRUE', 'Battery': '"last"', 'RoundTrip': 'TRUE' if rt else 'FALSE', 'Link': 'TRUE' if link else 'FALSE', 'Dump': 'TRUE' if dump else 'FALSE'}
     c.update(consts or {})
     return {'kind': 'gen', 'name': name or ('bfs%s%d' % (pool, depth)), 'module': module, 'subst': sub(pool, CaseExtra=extra, UrlProbes=(urls or 'NoUrls'), THProbes=(th or 'NoUrls')),
             'consts': c, 'trace': 'Trace_Router', 'props': props, 'limit': limit, 'sample': sample}
@@ -54,7 +54,7 @@ def gogen(mode, n, name=None, props=None, seedoff=0, fam='router', trace='Trace_
 
 def gen_sim(pool, depth, num, name=None, extra='NoExtra', props=None, seedoff=0, module='MC_Router', rt=False, link=False):
     return {'kind': 'gen', 'name': name or ('sim%s%d' % (pool, depth)), 'module': module, 'subst': sub(pool, CaseExtra=extra),
-            'consts': {'Depth': depth, 'EmitAll': 'FALSE', 'Battery': '"every"', 'RoundTrip': 'TRUE' if rt else 'FALSE', 'Link': 'TRUE' if link else 'FALSE'}, 'simulate': num, 'depth': depth + 8,
+            'consts': {'Depth': depth, 'EmitAll': 'FALSE', 'Battery': '"every"', 'RoundTrip': 'TRUE' if rt else 'FALSE', 'Link': 'TRUE' if link else 'FALSE', 'Dump': 'FALSE'}, 'simulate': num, 'depth': depth + 8,
             'trace': 'Trace_Router', 'props': props, 'seedoff': seedoff}
 
 
@@ -215,18 +215,23 @@ def p_c01(q):
             gen_sim('A', 12, 60), gen_sim('B', 12, 40, seedoff=1), gogen('bytes', 1500), gogen('mixed', 800, seedoff=1)]
 
 
+def mc_tree(depth):
+    return {'kind': 'mc', 'name': 'tree-refinement', 'module': 'MC_Tree', 'consts': {'Depth': depth}, 'view': 'viewT',
+            'invariants': ['TableRef', 'SoundRef', 'AddOnlyRef'], 'workers': 16}
+
+
 def p_c02(q):
     if q:
-        return [mc_router('T'), gen_bfs('O', 4, module='MC_RouterO', consts={'L': 4}, sample=0.2), gen_bfs('O', 3, name='bfsO3', module='MC_RouterO', consts={'L': 4}), gogen('addonly', 80)]
-    return [mc_router('T'), REPOTESTS, gen_bfs('O', 4, module='MC_RouterO', consts={'L': 5}), gen_bfs('O', 2, name='bfsO2L6', module='MC_RouterO', consts={'L': 6}),
+        return [mc_router('T'), mc_tree(4), gen_bfs('O', 4, module='MC_RouterO', consts={'L': 4}, sample=0.2), gen_bfs('O', 3, name='bfsO3', module='MC_RouterO', consts={'L': 4}, dump=True), gogen('addonly', 80)]
+    return [mc_router('T'), mc_tree(6), REPOTESTS, gen_bfs('O', 4, module='MC_RouterO', consts={'L': 5}, dump=True), gen_bfs('O', 2, name='bfsO2L6', module='MC_RouterO', consts={'L': 6}),
             gogen('addonly', 2000)]
 
 
 def p_c03(q):
     if q:
-        return [mc_router('T'), gen_bfs('B', 2, sample=0.2), gen_bfs('C', 2, sample=0.4), gen_bfs('X', 2, sample=0.05), gen_bfs('R', 5), gen_bfs('A', 2, sample=0.15),
+        return [mc_router('T'), mc_tree(4), gen_bfs('B', 2, sample=0.2, dump=True), gen_bfs('C', 2, sample=0.4, dump=True), gen_bfs('X', 2, sample=0.05), gen_bfs('R', 5), gen_bfs('A', 2, sample=0.15),
                 gen_bfs('Y', 3, link=True), gen_bfs('FC', 3, module='MC_RouterF'), gen_sim('B', 8, 10), gogen('mixed', 40)]
-    return [mc_router('T'), mc_router('M', 'routerM'), REPOTESTS, gen_bfs('A', 2), gen_bfs('B', 2), gen_bfs('C', 2), gen_bfs('X', 2, sample=0.3), gen_bfs('R', 6), gen_bfs('Y', 3, link=True), gen_bfs('FC', 3, module='MC_RouterF'),
+    return [mc_router('T'), mc_router('M', 'routerM'), mc_tree(6), REPOTESTS, gen_bfs('A', 2, dump=True), gen_bfs('B', 2, dump=True), gen_bfs('C', 2, dump=True), gen_bfs('X', 2, sample=0.3), gen_bfs('R', 6), gen_bfs('Y', 3, link=True), gen_bfs('FC', 3, module='MC_RouterF'),
             gen_sim('A', 14, 60), gen_sim('B', 14, 60, seedoff=1), gen_sim('C', 14, 40, seedoff=2), gogen('mixed', 1500)]
 
 
@@ -287,7 +292,12 @@ def p_c18(q):
             gen_sim('C', 12, 60), gogen('mixed', 1000)]
 
 
+def p_dump(q):
+    return [gen_bfs('O', 3, module='MC_RouterO', consts={'L': 2}, dump=True, props=['C02']), gen_bfs('B', 2, sample=0.3, dump=True, props=['C03']), gen_bfs('A', 2, sample=0.3, dump=True, props=['C03'])]
+
+
 ROUTER_PLANS = {
+    'TD': p_dump,
     'C18': p_c18,
     'C19': p_c19, 'C09': p_c09,
     'C10': p_c10,
